@@ -66,6 +66,9 @@ func TestReceiverSplit(t *testing.T) {
 		defer n.Close()
 		caseSeq++
 		e := &env{seq: caseSeq, t: t, group: group, n: n, nc: node.NewCluster(), xc: newXCluster("root", "mid0", "mid1", "mid2"), opt: node.DBOption(timeutil.Interval(storageIntervalMs)), d: d}
+		if d.Wide {
+			e.sqlSuffix = concLimit
+		}
 		defer e.nc.Close()
 		defer e.xc.Close()
 		for i := 0; i < maxLeaves; i++ {
@@ -126,7 +129,14 @@ func TestReceiverSplit(t *testing.T) {
 				fail("leaf %s only answers when there are several receivers", leaf)
 			}
 		}
-		classes := []string{fmt.Sprintf("receivers=%d", nRecv), fmt.Sprintf("layout:leaves=%d", len(l.Nodes)), fmt.Sprintf("receivers-with-data=%d", len(busy))}
+		classes := []string{fmt.Sprintf("receivers=%d", nRecv), fmt.Sprintf("layout:leaves=%d", len(l.Nodes)), fmt.Sprintf("receivers-with-data=%d", len(busy)), "query:limit=" + q.LimitKind}
+		if len(home) > q.effLimit() {
+			// a leaf splits all its groups whatever the limit of the statement is (the limit is applied by the root)
+			classes = append(classes, "limit:below-the-number-of-groups-the-leaves-send")
+		}
+		if d.Wide {
+			classes = append(classes, "case:wide-data-set")
+		}
 		if shared > 0 {
 			classes = append(classes, "group-sent-by->=2-leaves")
 		}
